@@ -4,7 +4,7 @@ From ZV.Gen Require Import Gen_Seek.
 From ZV.Seek Require Import SeekTable SeekBase SeekTableProofs SeekLoadProofs SeekLoadSafe SeekWriteProofs SeekWriter.
 From ZV.Seek Require Import SeekReader SeekReaderProofs SeekEndToEnd SeekCompressProofs SeekIntegrity.
 From ZV.Seek Require Import SeekReaderOld SeekBeyond SeekExact.
-From ZV.Seek Require Import SeekLoadConverse SeekFailed SeekInput SeekInputProofs.
+From ZV.Seek Require Import SeekLoadConverse SeekFailed SeekInput SeekInputProofs SeekReaderOld3.
 Import ListNotations.
 Local Open Scope N_scope.
 
@@ -449,3 +449,26 @@ Theorem failed_read_after_fix_restarts :
    IoSeek 0 true; Feed 0 0 []; IoRead 0 4 true; Feed 0 0 [0;1;2;3]; IoRead 4 3 true].
 Proof. exact SeekInputProofs.failed_read_after_fix_restarts. Qed.
 Print Assumptions failed_read_after_fix_restarts.
+
+(* ---- fix a2a0322: ZSTD_seekable_decompress returning corruption_detected (checksum mismatch / frame shorter than its entry)
+   leaves curFrame = (U32)-1 - EVERY table (well formed or not), content, hash, pacing, previous state and arguments; with
+   failed_call_position_is_forgotten the next call starts over at the frame start instead of continuing into the next frame *)
+Theorem corruption_return_forgets_position : forall H content BUFF NOPROG t sfc st dst len offset orc d st',
+  seekable_decompress H content BUFF NOPROG t sfc st dst len offset orc = RErr sk_E_corruption_detected d st' ->
+  r_cur st' = 4294967295.
+Proof. exact corruption_return_forgets. Qed.
+Print Assumptions corruption_return_forgets_position.
+(* witness for the code before a2a0322 (rloop_keep): two frames of 16 bytes, no checksums, entry 0 announcing 24: after
+   decompress(dst,24,0) = corruption_detected (position frame 0 / offset 16 kept) decompress(dst,4,16) returns the first four
+   bytes of FRAME 1 as success; a fresh reader, and the current model after the same first call, answer corruption_detected *)
+Theorem corruption_return_before_fix_reads_next_frame :
+  (exists d st, seekable_decompress_keep st_H st_content 64 16 st_t true rinit (repeat 165 24) 24 0 [(16, true)]
+                = RErr sk_E_corruption_detected d st /\ r_cur st = 0 /\ r_doff st = 16) /\
+  (exists st', seekable_decompress_keep st_H st_content 64 16 st_t true st_after_first_keep [165;165;165;165] 4 16 [(4, false)]
+               = ROk 4 [100; 101; 102; 103] st') /\
+  (exists d st', seekable_decompress_keep st_H st_content 64 16 st_t true rinit [165;165;165;165] 4 16 [(16, true)]
+               = RErr sk_E_corruption_detected d st') /\
+  (exists d st', seekable_decompress st_H st_content 64 16 st_t true st_after_first_now [165;165;165;165] 4 16 [(16, true)]
+               = RErr sk_E_corruption_detected d st').
+Proof. exact SeekFailed.corruption_return_before_fix_reads_next_frame. Qed.
+Print Assumptions corruption_return_before_fix_reads_next_frame.
